@@ -8,7 +8,7 @@
      lookup / for_each / register_override / lookup_state / run   model of the code (Keys/KeyMap.v)
      spec_build h        the dictionary of chords after h:  reg c v d = (c,v) :: [entries of d unrelated to c]
      related a b         one of the chords is a prefix of the other (equal chords included)
-     mexp                every map obtainable from new / register / register_override, nested to any depth *)
+     mexp                every map obtainable from new / register / register_override / clear, nested to any depth *)
 From Coq Require Import String.
 From Coq Require Import List NArith Bool.
 From SNT Require Import Base.Outcome Keys.KeyMap Keys.KeyParse Keys.KeyOrder
@@ -70,7 +70,7 @@ Section Statements.
     /\ NoDup (map fst (for_each (build h))).
   Proof. intros h. exact (k_enum (build h) (spec_build h) (k_repr_build h)). Qed.
 
-  (* maps built by any combination of new / register / register_override
+  (* maps built by any combination of new / register / register_override / clear
      (override merging of two maps, to any depth): lookups, enumeration and
      prefix-freeness as above, against the dictionary built by reg /
      spec_override; the non-empty lookup chords get the three meanings *)
@@ -101,39 +101,59 @@ Section Statements.
     In x o \/ (In x d /\ forall q, In q o -> related key_cmp (fst q) (fst x) = false).
   Proof. exact k_In_override. Qed.
 
-  (* the stateful matcher, every key sequence, every pending state: the coded
-     two-pass loop is the dictionary-level matcher *)
-  Theorem C18_matcher_refines : forall (h : history) (keys st : chord),
-    run key_cmp (build h) st keys = spec_run key_cmp (spec_build h) st keys.
-  Proof. intros h. exact (k_run_spec (build h) (spec_build h) (k_repr_build h)). Qed.
+  (* ---- the stateful matcher.  All statements are for every map obtainable from new / register /
+     register_override / clear in any combination (mexp), hence in particular for build h. *)
+
+  (* every key sequence, every pending state: the coded two-pass loop computes the same as the
+     matcher described over the dictionary (spec_handle).  This is a refinement of the code's loop to
+     the dictionary, not yet the English clauses: those are the next four theorems. *)
+  Theorem C18_matcher_refines : forall (m : mexp) (keys st : chord),
+    run key_cmp (eval_trie key_cmp m) st keys = spec_run key_cmp (eval_dict key_cmp m : dict key V) st keys.
+  Proof. intros m. exact (k_run_spec _ _ (k_repr_mexp m)). Qed.
 
   (* typed from the idle state, a bound chord fires exactly at its last key:
      nothing for the first n-1 keys, then the value; the matcher is idle again *)
-  Theorem C18_matcher_fires : forall (h : history) (c : chord) (v : V),
-    In (c, v) (spec_build h) ->
-    run key_cmp (build h) [] c = ([], repeat None (length c - 1) ++ [Some v]).
-  Proof. intros h c v. exact (k_fires (build h) (spec_build h) c v (k_repr_build h)). Qed.
+  Theorem C18_matcher_fires : forall (m : mexp) (c : chord) (v : V),
+    In (c, v) (eval_dict key_cmp m) ->
+    run key_cmp (eval_trie key_cmp m) [] c = ([], repeat None (length c - 1) ++ [Some v]).
+  Proof. intros m c v. exact (k_fires _ _ c v (k_repr_mexp m)). Qed.
 
-  (* an unbound key (one that begins no bound chord) never prevents the chord
-     typed immediately after it from firing: from the idle state ... *)
-  Theorem C18_matcher_recovers_idle : forall (h : history) (u : key) (c : chord) (v : V),
-    (forall c' v', In (c', v') (spec_build h) -> forall r, c' <> u :: r) ->
-    In (c, v) (spec_build h) ->
-    run key_cmp (build h) [] (u :: c) = ([], None :: repeat None (length c - 1) ++ [Some v]).
-  Proof. intros h u c v. exact (k_recovers_idle (build h) (spec_build h) u c v (k_repr_build h)). Qed.
+  (* converse: whenever the matcher fires it fires a bound chord — the pending keys followed by the
+     key just typed, or, when that sequence is neither bound nor a proper prefix, the key alone *)
+  Theorem C18_matcher_fires_only_bound : forall (m : mexp) (st : chord) (k : key) (st' : chord) (v : V),
+    lookup_state key_cmp (eval_trie key_cmp m) st k = (st', Some v) ->
+    st' = [] /\ (In (st ++ [k], v) (eval_dict key_cmp m)
+                 \/ (lookup (eval_trie key_cmp m) (st ++ [k]) = Failure /\ In ([k], v) (eval_dict key_cmp m))).
+  Proof. intros m st k st' v. exact (k_fires_only_bound _ _ st k st' v (k_repr_mexp m)). Qed.
 
-  (* ... and from any pending state st whatsoever, as long as the unbound key
-     does not itself continue the pending chord (st ++ [u] is not a proper
-     prefix of a bound chord) *)
-  Theorem C18_matcher_recovers : forall (h : history) (u : key) (c : chord) (v : V) (st : chord),
-    (forall c' v', In (c', v') (spec_build h) -> forall r, c' <> u :: r) ->
-    In (c, v) (spec_build h) ->
-    lookup (build h) (st ++ [u]) <> Continue ->
-    exists st' o, lookup_state key_cmp (build h) st u = (st', o)
-                  /\ run key_cmp (build h) st' c = ([], repeat None (length c - 1) ++ [Some v]).
-  Proof. intros h u c v st. exact (k_recovers (build h) (spec_build h) u c v st (k_repr_build h)). Qed.
+  (* an unbound key (one that begins no bound chord) does not prevent the chord typed immediately
+     after it from firing — from the idle state: *)
+  Theorem C18_matcher_recovers_idle : forall (m : mexp) (u : key) (c : chord) (v : V),
+    (forall c' v', In (c', v') (eval_dict key_cmp m : dict key V) -> forall r, c' <> u :: r) ->
+    In (c, v) (eval_dict key_cmp m) ->
+    run key_cmp (eval_trie key_cmp m) [] (u :: c) = ([], None :: repeat None (length c - 1) ++ [Some v]).
+  Proof. intros m u c v. exact (k_recovers_idle _ _ u c v (k_repr_mexp m)). Qed.
+
+  (* ... and from any pending state st, EXCEPT when the unbound key itself continues the pending
+     chord (st ++ [u] is a proper prefix of a bound chord: lookup answers Continue).  The exception is
+     necessary: C18_matcher_never_prevents_refuted below. *)
+  Theorem C18_matcher_recovers_unless_continues : forall (m : mexp) (u : key) (c : chord) (v : V) (st : chord),
+    (forall c' v', In (c', v') (eval_dict key_cmp m : dict key V) -> forall r, c' <> u :: r) ->
+    In (c, v) (eval_dict key_cmp m) ->
+    lookup (eval_trie key_cmp m) (st ++ [u]) <> Continue ->
+    exists st' o, lookup_state key_cmp (eval_trie key_cmp m) st u = (st', o)
+                  /\ run key_cmp (eval_trie key_cmp m) st' c = ([], repeat None (length c - 1) ++ [Some v]).
+  Proof. intros m u c v st. exact (k_recovers _ _ u c v st (k_repr_mexp m)). Qed.
 
 End Statements.
+
+(* The clause of the property text "an unbound key never prevents the chord typed immediately after
+   it from firing", read for every state reachable by typing keys from idle, is FALSE of the code (and
+   of any matcher that also fires multi-key chords at their last key): bound  a u c -> 1  and  c -> 2,
+   u begins no bound chord; after a, typing u c fires 1 (the chord a u c), so the chord c typed right
+   after the unbound key u does not fire.  Known finding C18-unbound-key-inside-chord. *)
+Theorem C18_matcher_never_prevents_refuted : exists h, ~ literal_never_prevents h.
+Proof. exact literal_never_prevents_refuted. Qed.
 
 (* parsing never panics: every input string, every to_lowercase satisfying lower_spec *)
 Theorem C18_parse_total : forall (lower : str -> str), lower_spec lower ->
@@ -165,9 +185,15 @@ Check @C18_lookup_refines : forall (V : Type) (h : list (list key * V)) (c : lis
 Check @C18_for_each : forall (V : Type) (h : list (list key * V)),
   (forall x, In x (for_each (build key_cmp h)) <-> In x (spec_build key_cmp h))
   /\ NoDup (map fst (for_each (build key_cmp h))).
-Check @C18_matcher_fires : forall (V : Type) (h : list (list key * V)) (c : list key) (v : V),
-  In (c, v) (spec_build key_cmp h) ->
-  run key_cmp (build key_cmp h) [] c = ([], repeat None (length c - 1) ++ [Some v]).
+Check @C18_matcher_fires : forall (V : Type) (m : mexp) (c : list key) (v : V),
+  In (c, v) (eval_dict key_cmp m) ->
+  run key_cmp (eval_trie key_cmp m) [] c = ([], repeat None (length c - 1) ++ [Some v]).
+Check @C18_matcher_recovers_unless_continues : forall (V : Type) (m : mexp) (u : key) (c : list key) (v : V) (st : list key),
+  (forall c' v', In (c', v') (eval_dict key_cmp m : dict key V) -> forall r, c' <> u :: r) ->
+  In (c, v) (eval_dict key_cmp m) ->
+  lookup key_cmp (eval_trie key_cmp m) (st ++ [u]) <> Continue ->
+  exists st' o, lookup_state key_cmp (eval_trie key_cmp m) st u = (st', o)
+                /\ run key_cmp (eval_trie key_cmp m) st' c = ([], repeat None (length c - 1) ++ [Some v]).
 Check C18_parse_total : forall lower : str -> str, lower_spec lower ->
   forall s : str, no_panic (parse_name lower s) /\ no_panic (parse_key lower s) /\ no_panic (parse_chord lower s).
 
